@@ -2,7 +2,7 @@
    Property theorems only: each is closed by [exact] of a lemma proved in Proofs/, followed by
    Print Assumptions. Quantification: every registration history, every request list. *)
 From Coq Require Import List NArith Bool.
-From BS Require Import Model.Registry Spec.RegistrySpec Proofs.RegistryProofs Gen.Tables.
+From BS Require Import Base.Types Model.Registry Spec.RegistrySpec Proofs.RegistryProofs Gen.Tables.
 Import ListNotations.
 Open Scope N_scope.
 
